@@ -1238,6 +1238,15 @@ impl Sim {
             self.w.node.calls[ci].extra_answers += 1;
             self.or.violate(
                 &self.w,
+                "C17",
+                "duplicate-reply",
+                format!(
+                    "a second reply carrying id {} was written",
+                    self.w.node.calls[ci].call_id
+                ),
+            );
+            self.or.violate(
+                &self.w,
                 "C06",
                 "answered-twice",
                 format!(
